@@ -25,6 +25,9 @@ type ListPlan struct {
 	BufSize        int  // read-buffer knob for file-backed lists; 0 = the library's own constructor and default
 	IgnoreCosmetic bool
 	Faulty         bool // wrap in FaultyRuleList
+	// ShareKey: file-backed lists with the same non-empty key (and the same
+	// text) are opened on ONE path, each through its own NewFileRuleList.
+	ShareKey string
 }
 
 // Built is a storage and handles on its parts.
@@ -45,15 +48,25 @@ var fileSeq int
 // in-memory and unwrapped: the reference configuration.
 func Build(plans []ListPlan, dir string, forceString bool) (*Built, error) {
 	b := &Built{plans: plans}
+	shared := map[string]string{}
 	for _, p := range plans {
 		var l filterlist.RuleList
 		var fl *filterlist.FileRuleList
 		var fy *FaultyRuleList
 		if p.File && !forceString {
-			fileSeq++
-			path := filepath.Join(dir, fmt.Sprintf("list-%d-%d.txt", os.Getpid(), fileSeq))
-			if err := os.WriteFile(path, []byte(p.Text), 0o600); err != nil {
-				return nil, err
+			path := ""
+			if p.ShareKey != "" {
+				path = shared[p.ShareKey]
+			}
+			if path == "" {
+				fileSeq++
+				path = filepath.Join(dir, fmt.Sprintf("list-%d-%d.txt", os.Getpid(), fileSeq))
+				if err := os.WriteFile(path, []byte(p.Text), 0o600); err != nil {
+					return nil, err
+				}
+				if p.ShareKey != "" {
+					shared[p.ShareKey] = path
+				}
 			}
 			b.paths = append(b.paths, path)
 			if p.BufSize == 0 {
